@@ -369,15 +369,23 @@ func (p *Parser) parseHexString() (core.Object, error) {
 		if p.pos >= len(p.data) || p.data[p.pos] == '>' {
 			// Odd number of digits - assume trailing 0
 			result.WriteByte(hexValue(c) << 4)
+			if p.pos < len(p.data) {
+				p.pos++ // consume '>'
+			}
 			break
 		}
 
 		c2 := p.data[p.pos]
 		if isWhitespace(c2) {
 			// Skip whitespace between hex digits
-			p.skipWhitespace()
+			for p.pos < len(p.data) && isWhitespace(p.data[p.pos]) {
+				p.pos++
+			}
 			if p.pos >= len(p.data) || p.data[p.pos] == '>' {
 				result.WriteByte(hexValue(c) << 4)
+				if p.pos < len(p.data) {
+					p.pos++ // consume '>'
+				}
 				break
 			}
 			c2 = p.data[p.pos]
